@@ -37,6 +37,18 @@ var roundForms = map[string][]string{
 }
 
 // exactRound: the mathematically right value m(x*10^p)/10^p, correctly rounded to float64.
+// contexts are pooled in production: every other case runs on one held context that is reset
+// between cases (what was computed before must not influence the next result)
+var heldCtx = dyntpl.NewCtx()
+
+func heldOrNew(r *RNG) *dyntpl.Ctx {
+	if r.Bool() {
+		return dyntpl.NewCtx()
+	}
+	heldCtx.Reset()
+	return heldCtx
+}
+
 func exactRound(mode string, p int, x float64) float64 {
 	r := new(big.Rat).SetFloat64(x)
 	if r == nil {
@@ -143,7 +155,7 @@ func runC20(o *Options) *Result {
 			c.Obs = po
 			continue
 		}
-		ctx := dyntpl.NewCtx()
+		ctx := heldOrNew(rng)
 		x := c.X
 		ctx.SetStatic("x", &x)
 		c.Obs = Render(key, ctx)
@@ -309,7 +321,7 @@ func runArith(o *Options, res *Result, rng *RNG) {
 		op := arithOps[rng.Intn(len(arithOps))]
 		ca, cb := numCarriers[rng.Intn(len(numCarriers))], numCarriers[rng.Intn(len(numCarriers))]
 		va, vb := vals[rng.Intn(len(vals))], vals[rng.Intn(len(vals))]
-		ctx := dyntpl.NewCtx()
+		ctx := heldOrNew(rng)
 		fa := ca.Set(ctx, "a", va)
 		fb := cb.Set(ctx, "b", vb)
 		var src string
@@ -381,7 +393,7 @@ func runTime(o *Options, res *Result, rng *RNG) {
 	for i := 0; i < n; i++ {
 		sec := secs[rng.Intn(len(secs))] + int64(rng.Intn(3))
 		inst := time.Unix(sec, 0)
-		ctx := dyntpl.NewCtx()
+		ctx := heldOrNew(rng)
 		kind := rng.Intn(6)
 		switch kind {
 		case 0:
